@@ -88,6 +88,8 @@ static void judge_ledger(const Plan& p, const OpResult& o, std::vector<Violation
     if (r.use_dead) vs.push_back(make_violation("C14", "destroyed_value_used", "a destroyed value was used" + counts + "; " + brief, p));
     if (r.arg_lvalue) vs.push_back(make_violation("C14", "argument_not_movable", "a functor received " + std::to_string(r.arg_lvalue) + " value(s) as lvalues: a by-value parameter would copy them, a move-only value type would not compile" + counts + "; " + brief, p));
     if (r.copy_in_lib) vs.push_back(make_violation("C14", "value_copied", "the library copied a semantic value " + std::to_string(r.copy_in_lib) + "x instead of moving it" + counts + "; " + brief, p));
+    if (o.out.exc == 5)
+        vs.push_back(make_violation("C14", "value_of_wrong_kind_handed_to_reduction", "std::bad_variant_access escaped: a reduction was handed a stack slot that does not hold the value it consumes (stale or misplaced value)" + counts + "; " + brief, p));
     bool exceptional = o.out.exc != 0;
     if (!exceptional && r.live_after != 0)
         vs.push_back(make_violation("C14", "value_leaked", std::to_string(r.live_after) + " object(s) still alive after the call returned and its result was dropped" + counts + "; " + brief, p));
